@@ -89,6 +89,11 @@ class Ipmitool(object):
         cmd += (' -I %s' % self._interface_type)
         cmd += (' -H %s' % self._session.rmcp_host)
         cmd += (' -p %s' % self._session.rmcp_port)
+        # ADMINISTRATOR is ipmitool's own default for -L
+        if self._session.priv_level != Session.PRIV_LEVEL_ADMINISTRATOR:
+            cmd += self._build_ipmitool_priv_level(self._session.priv_level)
+        if self._cipher is not None:
+            cmd += (' -C %s' % self._cipher)
         if self._session.auth_type == Session.AUTH_TYPE_NONE:
             cmd += (' -A NONE')
         elif self._session.auth_type == Session.AUTH_TYPE_PASSWORD:
